@@ -177,16 +177,16 @@ namespace plan
     void mention(const Lin &l)
     {
       for (auto &t : l.t)
-        m.mentioned.insert(t.second[0]);
+        m.mention_root(t.second[0]);
     }
     void mention(const BP &b)
     {
       mention(b->l);
       mention(b->r);
       if (!b->p.empty())
-        m.mentioned.insert(b->p[0]);
+        m.mention_root(b->p[0]);
       if (!b->p2.empty())
-        m.mentioned.insert(b->p2[0]);
+        m.mention_root(b->p2[0]);
       for (auto &c : b->sub)
         mention(c);
     }
@@ -229,6 +229,13 @@ namespace plan
       Scope sc;
       for (auto &a : m.preds[p].rparams)
         sc.nums.push_back({a});
+      if (!m.preds[p].oparam.empty())
+      { // the real fields of whichever instance the object parameter takes
+        std::vector<std::string> rf;
+        m.all_rfields(m.preds[p].oparam_cls, rf);
+        for (auto &f : rf)
+          sc.nums.push_back({m.preds[p].oparam, f});
+      }
       if (p_interval(m.preds[p]))
       {
         sc.nums.push_back({"start"});
@@ -507,7 +514,7 @@ namespace plan
       for (long i = 0; i < nf; ++i)
       {
         c.rfields.push_back("f" + std::to_string(id) + "_" + std::to_string(i));
-        c.rfield_mode.push_back(static_cast<int>(modn(op.arg(5) >> (2 * i), 4) % 3)); // field initialisers
+        c.rfield_mode.push_back(static_cast<int>(modn(op.arg(5) >> (2 * i), 4))); // field initialisers / free fields
       }
       long ofc = modn(op.arg(2), m.classes.size() + 2);
       if (ofc >= 2 && !m.classes[ofc - 2].is_sv)
@@ -958,6 +965,44 @@ namespace plan
         p.rparams.push_back("a" + std::to_string(m.preds.size()) + "_0");
       m.preds.push_back(p);
     }
+    else if (n == "opred")
+    { // a global predicate with an object-typed parameter over a plain class: `predicate P(real a, C1 ob)`; goals and facts give
+      // an instance, an object variable (also of a super class: the reader keeps the values of the right type), or nothing
+      // (then the parameter ranges over every instance of the class and its subclasses)
+      if (m.unit != 0 || m.preds.size() >= 5)
+        return;
+      std::vector<int> pc;
+      for (size_t i = 0; i < m.classes.size(); ++i)
+        if (!m.classes[i].is_sv)
+          pc.push_back(static_cast<int>(i));
+      if (pc.empty())
+        return;
+      PredD p;
+      p.name = "P" + std::to_string(m.preds.size());
+      p.kind = static_cast<int>(modn(op.arg(1), 3));
+      if (modn(op.arg(2), 2))
+        p.rparams.push_back("a" + std::to_string(m.preds.size()) + "_0");
+      p.oparam = "ob" + std::to_string(m.preds.size());
+      p.oparam_cls = pc[modn(op.arg(0), pc.size())];
+      { // the parameter's class gets an instance right away: a goal whose object parameter has no value at all trips an assertion
+        // of the reader (type::new_existential), which is not what this workload is about
+        bool any = false;
+        for (auto &in : m.insts)
+          if (m.is_subclass(in.cls, p.oparam_cls))
+            any = true;
+        if (!any)
+        {
+          Op io;
+          io.name = "inst";
+          io.a = {static_cast<long>(p.oparam_cls), 1, 0, 2, 0, 0, 0, 0, 0, 0, 0, 0};
+          const size_t before = m.insts.size();
+          apply(io);
+          if (m.insts.size() == before)
+            return;
+        }
+      }
+      m.preds.push_back(p);
+    }
     else if (n == "cpred")
     { // a predicate declared inside a plain (non smart-type) class, possibly temporal
       if (m.unit != 0 || m.preds.size() >= 5)
@@ -1127,6 +1172,43 @@ namespace plan
       }
       pos++;
       it->args = parse_args(op, pos, p, top);
+      if (!m.preds[p].oparam.empty())
+      { // the object parameter: an instance or object variable whose class is related to the parameter's (two times in three), or left open
+        const int pc = m.preds[p].oparam_cls;
+        bool any_inst = false;
+        for (auto &in : m.insts)
+          if (m.is_subclass(in.cls, pc))
+            any_inst = true;
+        if (!any_inst)
+          return; // the reader would reject a parameter without values
+        std::vector<const std::pair<Path, int> *> cands;
+        for (auto &o : top.objs)
+          if (o.first.size() == 1 && (m.is_subclass(o.second, pc) || m.is_subclass(pc, o.second)))
+          {
+            bool overlap = false; // some value of the path is a value of the parameter
+            bool is_inst = false;
+            for (auto &in : m.insts)
+              if (in.name == o.first[0])
+                is_inst = true, overlap = m.is_subclass(in.cls, pc);
+            if (!is_inst)
+              for (auto &in : m.insts)
+                if (m.is_subclass(in.cls, o.second) && m.is_subclass(in.cls, pc))
+                  overlap = true;
+            if (overlap)
+              cands.push_back(&o);
+          }
+        const long sel = op.arg(pos > 0 ? pos - 1 : 0) / 3 + static_cast<long>(m.n_formulas);
+        if (!cands.empty() && modn(sel, 3) != 0)
+        {
+          Arg a;
+          a.param = m.preds[p].oparam;
+          a.is_obj = true;
+          a.oval = cands[modn(sel / 3, cands.size())]->first;
+          it->args.push_back(a);
+          m.mention_root(a.oval[0]);
+          m.oarg_use[a.oval[0]] = {pc, m.unit};
+        }
+      }
       // a parameter that is a factor of a product in the rule is fixed either by a constant argument or, every other time, by
       // a constraint stated right after the formula (then it is a variable whose bounds coincide when the rule is applied)
       std::vector<Arg> fixed_after;
@@ -1140,9 +1222,10 @@ namespace plan
           else
             ++i;
       for (auto &a : it->args)
-        mention(a.val);
+        if (!a.is_obj)
+          mention(a.val);
       for (auto &sp : it->scope)
-        m.mentioned.insert(sp);
+        m.mention_root(sp);
       Stmt s;
       s.k = Stmt::FORMULA;
       s.item = it;
